@@ -147,6 +147,17 @@ CLAIMED = {
         design_ref="DESIGN.md section 5, C08",
         technique="Coq proof of the self-replacement no-op on the bookkeeping model; round trips validated by metamorphic runs (partial)",
         note=NOTE_COMMON + " Partial: reversibility clause validated per run."),
+    "C19": dict(
+        text="Theorems: typekey gives two sequences the same key exactly when they agree up to reversal (lexicographic order proved total and "
+             "antisymmetric); the pair enumeration used per node yields every unordered pair of distinct (deduplicated) neighbours in exactly one "
+             "orientation exactly once; two terms receive the same type id exactly when their keys are equal, and the unique-key entry at a "
+             "term's id is its own key. PARTIAL: graph-level completeness of angles/dihedrals (every chain exactly once, independent of bond "
+             "order/direction/duplication) is settled by exhaustive correspondence over all triangle-free graphs on <= 4 (thorough <= 5) atoms "
+             "plus random larger graphs, against the model and brute force; coefficients-per-term invariance under renaming, exclusion sets, "
+             "dropped undefined torsions and retyping tables are evaluated on every run.",
+        design_ref="DESIGN.md section 5, C19",
+        technique="Coq proof (order/typekey, pair enumeration, type assignment) with exhaustive small-graph model/implementation correspondence",
+        note=NOTE_COMMON + " Partial: graph-level enumeration completeness by exhaustive correspondence, not by theorem."),
 }
 
 PENDING_REASON = "no check registered yet: the Coq model and correspondence for this property are still being built (see DESIGN.md section 7 work order); nothing is claimed"
